@@ -85,8 +85,8 @@ FUNCS = ["Tree_Set", "Tree_Set_Fix", "Tree_Rem", "Tree_Rem_Fix", "Tree_Rotate_Le
          "Tree_Sibling", "Tree_Uncle", "Tree_Grandparent", "Tree_Iter_Init", "Tree_Iter_Next", "Tree_Iter_Last", "Tree_Iter_Prev", "Tree_Clear", "Tree_Clear_Entry",
          "Tree_Resize", "Tree_Mark", "Tree_Alloc", "Tree_Left", "Tree_Right", "Tree_Key", "Tree_Val", "Tree_Len"]
 
-def jobs(tier, only_ops=None, prefix="C03"):
-    nmax = 8 if tier == "thorough" else 6
+def jobs(tier, only_ops=None, prefix="C03", nmax_quick=6):
+    nmax = 8 if tier == "thorough" else nmax_quick
     J = []
     L = ["src/Exception.c", "src/Iter.c", "stubs/throw.c"]
     counts = count_dp(nmax)
@@ -130,4 +130,5 @@ def jobs(tier, only_ops=None, prefix="C03"):
 TREE_OPS_FOR = {"C01": ["mark"], "C06": ["clear"], "C05": ["set", "rem", "clear"], "C11": ["iter"], "C12": ["rem", "get"], "C19": ["get", "iter"]}
 
 def tree_jobs(tier, prop):
-    return jobs(tier, only_ops=TREE_OPS_FOR[prop], prefix=prop + ".Tree")
+    # the properties that share the Tree harness take the shapes up to 5 nodes in the quick tier (C03 itself: 6)
+    return jobs(tier, only_ops=TREE_OPS_FOR[prop], prefix=prop + ".Tree", nmax_quick=5)
